@@ -28,6 +28,9 @@ def h_recurrence(run, cfg):
         run.end('bankrupt')
 
     O.do_ops_ghost(run, w, cfg['ops'], g)
+    # reads never move the clock: the index series must exist up to the date the harness advanced to
+    if root.now != w.dts[w.di]:
+        run.fail('index-recorded-on-every-date', 'root clock is %s after the sequence, the harness advanced it to %s' % (root.now, w.dts[w.di]))
     O.sync(w)
     P = root.prices
     V = root.values
@@ -153,6 +156,7 @@ def h_scale(run, cfg):
 
 
 HARNESSES = {'recurrence': h_recurrence, 'scale': h_scale, 'flowneutral': h_flowneutral, 'capitalflow': h_capitalflow}
+DEFER_ORACLE_UNSUPPORTED = True      # recurrence products beyond degree 3 are evaluated on the path's model by the concrete replay
 WITNESS_CAP = {'quick': 120, 'thorough': 300}
 
 
@@ -190,6 +194,13 @@ def plan(tier):
     for seq in degs:
         cfg = dict(shape='S1', int=0, fee=['uf'], spread=1, ops=[list(o) for o in seq], mult=1, solvent=0, tail_next=1)
         tasks.append(dict(harness='recurrence', cfg=cfg, opts=opts))
+    # two date changes first (a security that was never held stops being refreshed, its own clock lags), then a flow and a weight read
+    for seq in ((['adjust', 'a'], ['read']), (['adjust', 'a'], ['adjust']), (['transact', 'b'], ['adjust', 'a']), (['adjust', 'b'], ['adjust', 'a'])):
+        for pa in (0, None):
+            cfg = dict(shape='S1', int=0, fee=['uf'], spread=1, ops=[list(o) for o in seq], mult=1, lead_next=2, tail_next=0, ndates=4)
+            if pa is not None:
+                cfg['prior_fixed'] = {'a': 0.0}
+            tasks.append(dict(harness='recurrence', cfg=cfg, opts=opts))
     tasks.append(dict(harness='flowneutral', cfg={}, opts=opts))
     for stk in ('flow_only', 'flow_then_idle', 'rebalance_then_flow', 'flow_then_rebalance'):
         for fl in (2500.0, -1000.0, 7.5):
